@@ -106,7 +106,8 @@ long vz_param_l(const char *key, long dflt)
 /* ------------------------------------------------------------------ reporting */
 const char *vz_prop = "";
 int vz_verbose;
-static int res_fd = 1;
+int vz_res_fd = 1;
+#define res_fd vz_res_fd
 static uint64_t labels, hashv = 0xcbf29ce484222325ull;
 static long counters[16];
 static int nontrivial;
@@ -185,6 +186,8 @@ void vz_fail(const char *prop, const char *tag, const char *fmt, ...)
 void vz_inconclusive(const char *why) { emit("inc", vz_prop, "inconclusive", why); _exit(4); }
 void vz_finish(void) { emit("ok", vz_prop, "-", ""); _exit(0); }
 
+uint8_t *vz_gen2_buf; size_t vz_gen2_len;   /* optional second stream (schedule) filled by target_gen */
+
 /* ------------------------------------------------------------------ case files */
 static int hexv(int c) { return c <= '9' ? c - '0' : (c | 32) - 'a' + 10; }
 static uint8_t *load_case(const char *path, size_t *n)
@@ -201,6 +204,11 @@ static uint8_t *load_case(const char *path, size_t *n)
 			bytes = realloc(bytes, hl + 1);
 			for (size_t i = 0; i < hl; i++) bytes[i] = hexv(line[6 + 2 * i]) << 4 | hexv(line[7 + 2 * i]);
 			*n = hl;
+		} else if (!strncmp(line, "bytes2=", 7)) {
+			size_t hl = strlen(line + 7) / 2;
+			uint8_t *b2 = malloc(hl + 1);
+			for (size_t i = 0; i < hl; i++) b2[i] = hexv(line[7 + 2 * i]) << 4 | hexv(line[8 + 2 * i]);
+			vz_gen2_buf = b2; vz_gen2_len = hl;
 		} else param_set(line);
 	}
 	free(line); fclose(f);
@@ -212,6 +220,11 @@ static void save_case(const char *path, const uint8_t *b, size_t n)
 	if (!f) return;
 	fprintf(f, "# verif case\ntarget=%s\n", target_name);
 	for (int i = 0; i < nparams; i++) if (strcmp(pkeys[i], "target")) fprintf(f, "%s=%s\n", pkeys[i], pvals[i]);
+	if (vz_gen2_len) {
+		fprintf(f, "bytes2=");
+		for (size_t i = 0; i < vz_gen2_len; i++) fprintf(f, "%02x", vz_gen2_buf[i]);
+		fprintf(f, "\n");
+	}
 	fprintf(f, "bytes=");
 	for (size_t i = 0; i < n; i++) fprintf(f, "%02x", b[i]);
 	fprintf(f, "\n");
@@ -223,6 +236,7 @@ static void run_case(const uint8_t *b, size_t n)
 	vz_prop = vz_param("prop", "");
 	vz_verbose = vz_param_l("verbose", 0);
 	ch_init(b, n);
+	ch2_init(vz_gen2_buf, vz_gen2_len);
 	target_run();
 	vz_finish();
 }
@@ -262,6 +276,7 @@ static int batch(int argc, char **argv)
 
 	for (uint64_t k = 0; k < count; k++) {
 		uint64_t idx = first + k * stride;
+		vz_gen2_len = 0;
 		size_t n = target_gen(seed, idx, buf, cap);
 		int pfd[2];
 		if (pipe(pfd) < 0) { perror("pipe"); return 2; }
